@@ -72,7 +72,7 @@ def run_replay_job(pid: str, cfg: dict, choices: List[int], hashseed: int, kfs: 
                    shrink_budget: float = 20.0, tag: str = 'r') -> Tuple[Optional[dict], str]:
     job = {'mode': 'replay', 'prop': pid, 'cfg': cfg, 'choices': choices, 'kfs': kfs,
            'scratch': os.path.join(scratch, tag), 'out': os.path.join(scratch, tag + '.json'),
-           'shrink': shrink, 'want': want, 'shrink_budget_s': shrink_budget, 'watchdog_s': 120}
+           'shrink': shrink, 'want': want, 'shrink_budget_s': shrink_budget, 'watchdog_s': 120 + int(shrink_budget)}
     p = _spawn(job, hashseed)
     (j, doc, err), = _wait([(job, p)], 600)
     if doc is not None and not doc.get('ok'):
@@ -192,7 +192,8 @@ def _check(mod: Any, pid: str, tier: str, base_seed: int, workers: int, budget: 
         seen_sig.add(sig)
         hs = hashseed_for(mod, v['index'])
         doc, err = run_replay_job(pid, cfg, v['choices'], hs, kfs, scratch, shrink=True,
-                                  want=list(sig), tag='v%d' % v['index'])
+                                  want=list(sig), tag='v%d' % v['index'],
+                                  shrink_budget=float(cfg.get('shrink_budget_s', 20.0 if tier == 'quick' else 90.0)))
         if doc is None:
             harness_errors.append('replay worker failed for index %s: %s' % (v['index'], err[-2000:]))
             continue
